@@ -60,12 +60,18 @@ class Ctx:
         return quick if self.quick else thorough
 
     # ---------------------------------------------------------------- model checking (M)
-    def model_check(self, module, cfg, name=None, data_driven=False, env=None, **kw):
+    def model_check(self, module, cfg, name=None, data_driven=False, env=None, extension=False, **kw):
         """Run a bounded exhaustive TLC instance. A violated invariant of a purely design-level
         model is a machinery failure (the committed spec must satisfy its own properties); of a
         data-driven model (constants exported from the tree) it is a property violation."""
         res = tlc.run(module, cfg, env=env, **kw)
         self._account(res, name or res.module)
+        if not res.ok and extension and res.violated:
+            # behaviour specified beyond the listed property: reported, recorded in the evidence, never a verdict on the property
+            msg = "%s: %s" % (res.module, ",".join(res.violated))
+            self.notes.setdefault("extension_violations", []).append(msg)
+            print("EXTENSION-NOTE: property=%s (specified beyond the listed property; not a verdict on it) %s" % (self.pid, msg))
+            return res
         if not res.ok:
             if data_driven:
                 rec = {"kind": "model", "module": res.module, "violated": res.violated,
